@@ -675,10 +675,52 @@ def _replace_node(root, old, new):
     return False
 
 
+def flatten_new_bases(prog, inv):
+    """N3: a class of the reference inventory that now inherits from a NEW program class (one that is not in the inventory:
+    the result of a 'pull up into a base class' refactoring) gets that base's methods, property setters and class
+    attributes copied in, unless it overrides them - the rules then see each concrete class with its complete behaviour.
+    Returns [(class, new base)]."""
+    inv_classes = {f.rsplit(".", 1)[0] for f in inv["functions"]} | {a.rsplit(".", 1)[0] for a in inv["class_attrs"]}
+    done = []
+    for _ in range(4):
+        changed = False
+        for c in list(prog.classes.values()):
+            for b in c.node.bases:
+                d = dotted(b)
+                if d is None or "." in d:
+                    continue
+                kind, q = prog.resolve(c.module, d)
+                if kind != "class" or q not in prog.classes or q in inv_classes:
+                    continue
+                base = prog.classes[q]
+                if (c.qual, base.qual) in done:
+                    continue
+                for name, m in list(base.methods.items()) + [(n + ".setter", m_) for n, m_ in base.setters.items()]:
+                    is_setter = name.endswith(".setter")
+                    plain = name[:-7] if is_setter else name
+                    if (is_setter and plain in c.setters) or (not is_setter and plain in c.methods):
+                        continue
+                    node = copy.deepcopy(m.node)
+                    c.node.body.append(node)
+                    f = prog._add_function(c.module, node, c, None, c.qual)
+                    if is_setter:
+                        c.setters[plain] = f
+                    else:
+                        c.methods[plain] = f
+                for a, v in base.class_attrs.items():
+                    c.class_attrs.setdefault(a, v)
+                done.append((c.qual, base.qual))
+                changed = True
+        if not changed:
+            break
+    return done
+
+
 def normalise(prog):
     inv = load_inventory()
     if inv is None:
         return None
+    prog.flattened = flatten_new_bases(prog, inv)
     inl = Inliner(prog, inv).run()
     prog.inlined = inl.inlined
     prog.const_subst = inl.const_subst
